@@ -6,7 +6,7 @@ _c31_hdr = _os2.path.join(_os2.path.dirname(_os2.path.abspath(__file__)), 'engin
 _c31_key = _hl.sha256(open(_c31_hdr, 'rb').read()).hexdigest()[:16]
 
 target('c31_l2cap', 'engines/comp/c31_l2cap.cpp',
-       quick=dict(cases=30000, size=100), thorough=dict(cases=600000, size=140),
+       quick=dict(cases=60000, size=100), thorough=dict(cases=600000, size=140),
        extra_src=['$REPO/bluetoe/utility/address.cpp'],
        cxxflags=['-DC31_COMMON_HPP_SHA=0x' + _c31_key])
 target('c31_l2cap_fuzz', 'engines/comp/c31_l2cap_fuzz.cpp', kind='fuzz',
